@@ -32,6 +32,7 @@ const (
 	allocPerOct = 1 << 10
 	killAlloc   = 256 << 20 // in-flight kill threshold (4× the bound of a maximum-size datagram)
 	killCPU     = 10 * time.Second
+	softCPU     = 1 * time.Second // completed datagrams: CPU above this is reported (after a second measurement)
 )
 
 type event struct {
@@ -392,6 +393,7 @@ func childMain(a mon.Args) {
 	}()
 	warmUp()
 	sum := &csum{Outcomes: map[string]int64{}}
+	cpuOver := 0
 	var pbuf [8]byte
 	var ms runtime.MemStats
 	for idx := from; idx < to; idx++ {
@@ -497,6 +499,32 @@ func childMain(a mon.Args) {
 						Msg: fmt.Sprintf("a datagram of %d octets made the decoder allocate %d octets (bound 32 KiB + 1 KiB per octet = %d; measured twice, smaller value reported)", n, al, bound)})
 				} else {
 					sum.Outcomes["(alloc measurement not reproduced: one-time cost)"]++
+				}
+			}
+			// CPU: decoding a datagram of at most 64 KiB takes milliseconds (the largest value seen on the unchanged tree
+			// is some tens of ms). More than a second of CPU for one datagram is work that follows something else
+			// than the octets received - measured twice (process CPU time, not wall clock), smaller value judged.
+			if cpu > softCPU {
+				c0 := cpuNow()
+				func() {
+					defer func() { recover() }()
+					process(c.Proto, d.Addr, cp(d.B), cs)
+				}()
+				if c2 := cpuNow() - c0; c2 < cpu {
+					cpu = c2
+				}
+				if cpu > softCPU {
+					emit(event{T: "viol", Idx: idx, DI: di, Kind: "budget-cpu", N: n, Alloc: al,
+						Msg: fmt.Sprintf("one datagram of %d octets consumed %.1f s of CPU (measured twice, smaller value reported; bound 1 s)", n, cpu.Seconds())})
+					cpuOver++
+					if cpuOver >= 5 {
+						// every further case of this kind costs seconds: the finding is made, the rest of the chunk is left out
+						sum.Outcomes["(chunk abandoned after five datagrams over the CPU bound)"]++
+						binary.BigEndian.PutUint64(pbuf[:], uint64(to))
+						prog.WriteAt(pbuf[:], 0)
+						emit(event{T: "sum", Idx: to, Sum: sum})
+						os.Exit(0)
+					}
 				}
 			}
 			if recs > n {
